@@ -97,11 +97,21 @@ def walk_complete(stream):
     while i < len(stream):
         st = stream[i]
         if st == 0xf0:
-            try:
-                j = stream.index(0xf7, i)
-            except ValueError:
+            # real-time bytes may stand inside a sysex message (legal MIDI): each is a message of its own, delivered when it arrives -
+            # ahead of the sysex, and also when the sysex is never completed
+            data, j, closed = [], i + 1, False
+            while j < len(stream):
+                b = stream[j]; j += 1
+                if b == 0xf7:
+                    closed = True
+                    break
+                if b >= 0xf8:
+                    out.append([b])
+                else:
+                    data.append(b)
+            if not closed:
                 break
-            out.append(stream[i:j + 1]); i = j + 1
+            out.append([0xf0] + data + [0xf7]); i = j
             continue
         n = need.get(st >> 4) or sysn[st]
         if i + n > len(stream):
@@ -650,13 +660,25 @@ def run(out):
     # message lists x EVERY cut offset x a segmentation x how the peer goes away (FIN / RST); iterate to the end
     for _ in range(25 if quick else 1500):
         ms = [canon.random_message(rng, sysex_max=6) for _ in range(rng.randrange(1, 5))]
-        full = [b for m in ms for b in canon.std_layout(m)]
+        full = []
+        for m in ms:
+            enc = canon.std_layout(m)
+            if enc[0] == 0xf0 and rng.random() < 0.6:       # real-time bytes strictly inside a sysex message
+                for _k in range(rng.randrange(1, 3)):
+                    enc.insert(rng.randrange(1, len(enc)), rng.choice([0xf8, 0xfa, 0xfb, 0xfc, 0xfe, 0xff]))
+            full += enc
         for cut in range(len(full) + 1):
             cuts_total += 1
             for last in (-2, -3):
                 ev = events(segment(rng, full[:cut]), last)
                 ops = rng.choice([[2], [2], [2, 1, 3], [1, 2], [0, 1, 2], [4, 2], [0, 0, 2, 3, 3]])
                 socks.append([1, 1, FUEL, len(ev)] + ev + ops)
+    for full in ([0x90, 1, 2, 0xf0, 1, 0xf8, 2, 0xfe, 3, 0xf7, 0xc0, 5], [0xf0, 0xfa, 0xf7, 0xf0, 7, 0xff, 0xfb, 0xf7], [0xf0, 1, 2, 0xfc]):
+        for cut in range(len(full) + 1):
+            cuts_total += 1
+            for last in (-2, -3):
+                for seg in (segment(rng, full[:cut]), [[b] for b in full[:cut]]):
+                    socks.append([1, 1, FUEL, len(events(seg, last))] + events(seg, last) + rng.choice([[2], [1, 2], [4, 2]]))
     # the port closes first: the peer must see it; operations after close
     for _ in range(40 if quick else 3000):
         ms = [canon.random_message(rng, sysex_max=4) for _ in range(rng.randrange(0, 3))]
